@@ -3,6 +3,7 @@ package revolut2
 import (
 	"encoding/csv"
 	"strings"
+	"time"
 
 	"github.com/sboehler/knut/lib/common/date"
 	"github.com/sboehler/knut/lib/journal"
@@ -104,4 +105,65 @@ func VerifRevolut2Deterministic() {
 	}
 	o1, o2 := run(), run()
 	v.AssertExcept(o1 == o2, "same-output-on-every-run", "C06-F16", n >= 2)
+}
+
+// VerifRevolut2Statement: C13 for a statement of several rows. Every row picks
+// one of two completed dates and one of two currencies; the balances have
+// symbolic digits. The import holds one transaction per row and exactly the
+// balance assertions the statement carries: one per (date, currency) that has a
+// row, with the balance of the last such row.
+func VerifRevolut2Statement() {
+	n := v.Param("rows")
+	dates := []string{"2020-07-02", "2020-07-05"}
+	curs := []string{"CHF", "EUR"}
+	type key struct{ d, c int }
+	var last [2][2]string
+	var seen [2][2]bool
+	var order []key
+	text := zzHeader
+	for i := 0; i < n; i++ {
+		row := string(rune('0' + i))
+		k := key{v.Choice("date"+row, 2), v.Choice("cur"+row, 2)}
+		bal := v.Digits("b"+row, 2) + "." + v.Digits("bf"+row, 1) + "0"
+		if !seen[k.d][k.c] {
+			order = append(order, k)
+			seen[k.d][k.c] = true
+		}
+		last[k.d][k.c] = bal
+		text += "CARD_PAYMENT,Current,2020-07-01 16:35:02," + dates[k.d] + " 05:27:33,shop,-1" + string(rune('0'+i)) + ".00,0.00," + curs[k.c] + ",COMPLETED," + bal + "\n"
+	}
+	p, acc := zzParser(text)
+	err := p.parse()
+	v.Assert(err == nil, "well-formed-statement-is-imported")
+	if err != nil {
+		return
+	}
+	ntrx := 0
+	var asserts []*model.Assertion
+	for _, d := range p.builder.Build().Days {
+		ntrx += len(d.Transactions)
+		asserts = append(asserts, d.Assertions...)
+		v.Assert(len(d.Prices) == 0 && len(d.Openings) == 0 && len(d.Closings) == 0, "nothing-else-is-emitted")
+	}
+	v.Assert(ntrx == n, "exactly-one-transaction-per-booking-row")
+	v.Assert(len(asserts) == len(order), "only-the-balance-assertions-the-statement-carries")
+	for _, k := range order {
+		want, _ := decimal.NewFromString(last[k.d][k.c])
+		found := 0
+		for _, x := range asserts {
+			if len(x.Balances) == 1 && x.Date.Equal(zzDay(dates[k.d])) && x.Balances[0].Commodity.Name() == curs[k.c] {
+				found++
+				v.Assert(x.Balances[0].Account == acc && x.Balances[0].Quantity.Equal(want), "assertion-carries-the-last-row-balance")
+			}
+		}
+		v.Assert(found == 1, "one-balance-assertion-per-date-and-currency")
+	}
+}
+
+func zzDay(s string) time.Time {
+	t, err := time.Parse("2006-01-02", s)
+	if err != nil {
+		panic(err)
+	}
+	return t
 }
